@@ -204,6 +204,8 @@ def decode(block, encoding, errors, line_delimiter):
             return []
         parts = text.split(line_delimiter)
         out = [t + line_delimiter for t in parts[:-1]] + (
-            parts[-1:] if not text.endswith(line_delimiter) else []
+            # (not `text.endswith(line_delimiter)`: with a self-overlapping
+            # delimiter such as "||" the remainder of "a|||" is "|", not "")
+            parts[-1:] if parts[-1] else []
         )
         return out
